@@ -92,7 +92,11 @@ class ExprMixin:
 
     def get_field(self, obj, attr, path, line):
         flds = path.objs[obj.oid]
-        if attr in flds: return flds[attr]
+        if attr in flds:
+            if not self.spec_mode and (obj.oid, attr) in getattr(self, 'maybe_absent', ()):
+                # created "if the callee created it" (calls.py): the code under verification may not rely on its existence
+                raise Undecided('field %s may not exist after the call that can create it (line %d)' % (attr, line))
+            return flds[attr]
         m = self.repo.find_method(obj.cls, attr)
         if m is not None: return VExt('boundmethod', (obj, m))
         self.vc('no-raise/attribute-%s@%d' % (attr, line), path, z3.BoolVal(False), line=line)
